@@ -70,6 +70,9 @@ def prov(fn, e, depth=6, outptr=None):
                     p = prov(fn, ds[0], depth - 1, outptr)
                 else:
                     p = Prov("cursor", e["decl"], 0)
+    elif k == "member" and outptr and canon(e) in outptr:
+        p = outptr[canon(e)]
+        p = Prov(p.kind, p.base, p.off, p.view)
     elif k == "bin" and e.get("op") in ("+", "-"):
         l, r = e["l"], e["r"]
         lt = (strip(l).get("t") or {})
@@ -363,7 +366,82 @@ def outptr_env(eng, f):
                         p2.lb = lb
                         p2.nonnull_needed = True
                         env[strip_all_casts(a0["e"])["decl"]] = p2
+            # a local {pointer, size} struct filled through a non-const reference parameter: fields assigned `prm.ptr = data + k`,
+            # `prm.size = size - k` in the callee (a whole-object reset to its null default does not count)
+            if a0.get("k") == "ref" and a0.get("dk") == "local" and i < len(g.params) and g.params[i]["t"].get("ref") and \
+                    g.params[i]["t"].get("k") == "rec" and not g.params[i]["t"].get("const"):
+                od = g.params[i]["decl"]
+                fields = {}
+                for x in g.nodes():
+                    if x.get("k") == "assign":
+                        l = strip_all_casts(x["l"])
+                        if l.get("k") == "member" and strip_all_casts(l.get("base", {})).get("decl") == od:
+                            fields.setdefault(l["name"], []).append(x)
+                for fname, asg in fields.items():
+                    if len(asg) != 1:
+                        continue
+                    x = asg[0]
+                    key = "%s.%s" % (a0["decl"], fname)
+                    if (strip_all_casts(x["l"]).get("t") or {}).get("k") == "ptr":
+                        pr = prov(g, x["r"])
+                        if pr.kind == "param" and pr.off is not None:
+                            gs, _ = companion(g, pr.base)
+                            gidx = [p["decl"] for p in g.params].index(pr.base)
+                            actual = prov(f, c["args"][gidx])
+                            if actual.kind == "param" and actual.off is not None:
+                                p2 = Prov("param", actual.base, actual.off + pr.off)
+                                p2.lb = lb_from_facts(eng.mf(g).at(x), gs) if gs else 0
+                                p2.nonnull_needed = True
+                                env[key] = p2
+                    else:
+                        # size field: linear in the callee's size parameter
+                        for prm in g.params:
+                            def syms(z, prm=prm):
+                                return "n" if z.get("k") == "ref" and z.get("decl") == prm["decl"] else None
+                            form = _linear(g, x["r"], syms)
+                            if form is not None and form.get("n") == 1 and set(form) <= {"n", 1}:
+                                gidx = [p["decl"] for p in g.params].index(prm["decl"])
+                                act = strip_all_casts(c["args"][gidx]) if gidx < len(c.get("args", [])) else {}
+                                if act.get("k") == "ref":
+                                    env[key] = ("size", act["decl"], form.get(1, 0))
     return env
+
+
+def outp_lb(outp, node, fs):
+    """Lower bound inherited from the callee that filled an out-pointer / out-struct used in `node`, when the
+    pointer's non-null test is live (the callee leaves it null unless its own size guard held)."""
+    best = 0
+    for d, p2 in outp.items():
+        if not isinstance(p2, Prov):
+            continue
+        used = any((x.get("decl") == d) or (x.get("k") == "member" and canon(x) == d) for x in walk(node))
+        if used and any(a[0] == "cmp" and a[2] == "!=" and (a[1] == d or a[3] == d) for a in fs):
+            best = max(best, getattr(p2, "lb", 0))
+    return best
+
+
+def size_form(f, sa, cs, outp):
+    """Linear form {n: 1, 1: c} of a size argument over the caller's companion size cs; a size field of an
+    out-struct (`cursor.size`, assigned `size - k` by the callee from this same cs) counts as n - k."""
+    def syms(x):
+        if x.get("k") == "ref" and x.get("decl") == cs:
+            return "n"
+        if x.get("k") == "member":
+            ent = (outp or {}).get(canon(x))
+            if isinstance(ent, tuple) and ent[0] == "size" and ent[1] == cs:
+                return "S%d" % ent[2]
+        return None
+    form = _linear(f, sa, syms)
+    if form is None:
+        return None
+    out = {}
+    for k, v in form.items():
+        if isinstance(k, str) and k.startswith("S"):
+            out["n"] = out.get("n", 0) + v
+            out[1] = out.get(1, 0) + v * int(k[1:])
+        else:
+            out[k] = out.get(k, 0) + v
+    return out
 
 
 def rule_views(eng):
@@ -402,11 +480,7 @@ def rule_views(eng):
                 continue
             lb, fs = eng.facts_lb(f, n, sdecl, pdecl)
             # out-pointer locals: need the non-null test and inherit the callee's guard
-            for d, p2 in outp.items():
-                if any(x.get("decl") == d for x in walk(n)):
-                    nonnull = any(a[0] == "cmp" and a[2] == "!=" and ((a[1] == d and strip(a[5]).get("null")) or (a[3] == d and strip(a[4]).get("null"))) for a in fs)
-                    if nonnull:
-                        lb = max(lb, getattr(p2, "lb", 0))
+            lb = max(lb, outp_lb(outp, n, fs))
             if lb >= need:
                 res.ok("C02-R1", key, n.get("loc"), "locally guarded: %s >= %d" % (sdecl.split(":")[-1], need))
             else:
@@ -521,16 +595,11 @@ def discharge_site(eng, cf, cn, pidx, sidx, need):
         if pr.kind == "param" and pr.off is not None:
             cs, csi = companion(cf, pr.base)
             if cs:
-                def syms(x):
-                    return "n" if x.get("k") == "ref" and x.get("decl") == cs else None
-                form = _linear(cf, sa, syms)
+                form = size_form(cf, sa, cs, outp)
                 if form is not None and form.get("n") == 1:
                     c = form.get(1, 0)
                     lbn, _ = eng.facts_lb(cf, cn, cs, pr.base)
-                    for d, p2 in outp.items():
-                        if any(x.get("decl") == d for x in walk(pa)):
-                            if any(a[0] == "cmp" and a[2] == "!=" and (a[1] == d or a[3] == d) for a in fs):
-                                lbn = max(lbn, getattr(p2, "lb", 0))
+                    lbn = max(lbn, outp_lb(outp, pa, fs))
                     if lbn + c >= need:
                         return True, "", None
                     return False, "size argument %s with %s >= %d gives only %d" % (scan, cs.split(":")[-1], lbn, lbn + c), (pr.base, cs, need - c)
@@ -762,14 +831,10 @@ def rule_pairs(eng, ctx):
                 if pr.kind == "param" and pr.off is not None:
                     cs, _ = companion(f, pr.base)
                     if cs:
-                        def syms(x, cs=cs):
-                            return "n" if x.get("k") == "ref" and x.get("decl") == cs else None
-                        form = _linear(f, sa, syms)
+                        form = size_form(f, sa, cs, outp)
                         lbn, _ = eng.facts_lb(f, c, cs, pr.base)
                         lbn = max(lbn, eng.req.get(f.key, {}).get(pr.base, [0])[0])
-                        for d, p2 in outp.items():
-                            if any(x.get("decl") == d for x in walk(pa)) and any(a[0] == "cmp" and a[2] == "!=" and (a[1] == d or a[3] == d) for a in fs):
-                                lbn = max(lbn, getattr(p2, "lb", 0))
+                        lbn = max(lbn, outp_lb(outp, pa, fs))
                         if form is not None and form.get("n") == 1 and set(form) <= {"n", 1}:
                             cc = form.get(1, 0)
                             ok = pr.off + cc <= 0 and lbn + cc >= 0
